@@ -5,7 +5,7 @@ import copy
 import json
 from typing import Any
 
-from props import c23_gen, c23_ir, c23_ll
+from props import c23_fmt, c23_gen, c23_ir, c23_ll
 from props.c23_ir import Unsupported, ref_run, sexp
 from vp import core
 
@@ -30,7 +30,16 @@ META = {
         "subset parser and compared instruction by instruction with Lean's conv of the same function, (3) "
         "evaluated by the Lean IR semantics and (4) JIT-compiled (MCJIT) and called through ctypes on boundary + "
         "random inputs; all three are compared with an independent Python reference of the source semantics "
-        "(inputs that produce poison/UB are excluded, as the property says)."
+        "(inputs that produce poison/UB are excluded, as the property says). Float-format family "
+        "(props/c23_fmt.py): the same kind of functions over ALL builtin float formats (f16, bf16, f32, f64 random; "
+        "f80, f128 in fixed boundary programs) — convert_type decides per type whether a module is translated "
+        "and with which LLVM type; for every program that is translated (1) LLVM accepts it, (2) text oracle: "
+        "signature and every float type named in the emitted function are the images of the source types under "
+        "the format table f16=half bf16=bfloat f32=float f64=double f80=x86_fp80 f128=fp128 (Lean: "
+        "FloatFmt.llvmName_injective — the name determines the format; convFloatTy_format/_injective — the rows "
+        "convert_type has keep the format; the rows and the translate/reject boundary are compared with the real "
+        "convert_type on every run), (3) execution oracle: MCJIT with the host's instruction set vs a Python "
+        "reference of IEEE half / bfloat16 arithmetic."
     ),
     "technique": "Lean 4 simulation proof for the translation model + per-program translation validation "
                  "(text re-read vs model, LLVM verifier, JIT execution vs independent reference)",
@@ -49,7 +58,14 @@ META = {
         "not determined), NaN results compared as a class. Not translated (exception from convert_module: "
         "KeyError for a use listed before its definition, ValueError for fcmp _false/_true) is outside the "
         "statement and counted. pointer-to-pointer bitcasts that llvmlite's typed-pointer bookkeeping inserts "
-        "are read as the identity. Calls, vectors, structs, globals, intrinsics, fast-math flags are outside the subset."
+        "are read as the identity. Calls, vectors, structs, globals, intrinsics, fast-math flags are outside the subset. "
+        "Float-format family: no Lean semantics for half/bfloat arithmetic (Python reference vs MCJIT only); functions "
+        "take/return i*/f32/f64 (16-bit floats enter and leave through bitcast/fpext/fcmp/constants/memory); excluded "
+        "inputs: a 16-bit-format arithmetic result in the format's subnormal range (LLVM computes through binary32 "
+        "and the hardware bfloat16 conversion flushes), sitofp from an integer wider than 16 bits to a 16-bit "
+        "format (two roundings); half/bfloat code is executed only if a child-process probe shows that this "
+        "machine can run it (else the text oracle alone applies); f80/f128 programs are never executed (text "
+        "oracle only). A type convert_type rejects (bf16, f80, f128 on the pinned tree) is 'not translated'."
     ),
     "rule": (
         "programs: seeded random well-typed llvm.func bodies (1–6 blocks, DAG + optional counted loop, block "
@@ -57,12 +73,16 @@ META = {
         "boundary values in both signless representatives, allocas with initialising stores, occasional "
         "permuted block lists) + fixed regression programs; inputs: per program boundary/small/random bit "
         "patterns. evaluations = (program, input) pairs evaluated; non-trivial = pair on which the source is "
-        "defined and the JIT-compiled function was executed and compared; distinct by (program text, input)."
+        "defined and the JIT-compiled function was executed and compared; distinct by (program text, input). "
+        "Float-format family: fixed boundary programs per format (constants+select+fcmp, sitofp+fadd, bitcast+fpext, "
+        "bitcast+fadd/fmul/fdiv+bitcast, store/load/block argument/fneg) for f16 bf16 f32 f64 f80 f128, and random "
+        "functions of the same generator with the float pool {f16|bf16|both} + f32 + f64 (240 quick / 4000 "
+        "thorough); counted in the histogram as fmt.<fixed|random>.<formats>.<status>."
     ),
     "trusted_base": [
         "hand-written Lean model XdslModel/LLVM.lean of the dialect subset, the LLVM-IR subset and conv (tied by the per-program text comparison and by execution)",
         "LLVM 20 via llvmlite 0.47 (parser, verifier, MCJIT) and the host CPU",
-        "harness/props/c23*.py: generator, IR builder/extractor, .ll subset reader, Python reference semantics",
+        "harness/props/c23*.py: generator, IR builder/extractor, .ll subset reader, Python reference semantics (incl. IEEE half / bfloat16 rounding), float-format table",
     ],
     "assumptions": [
         "llvmlite's IRBuilder prints the instruction the called builder method names (checked per program by re-reading the text)",
@@ -483,7 +503,7 @@ def corpus_programs(ctx: core.Ctx) -> list[list]:
         except Exception:  # noqa: BLE001  (outside the subset)
             ctx.count("corpus.outside_subset")
             continue
-        if len(p) < 3 or any(t == "ptr" for _, t in p[2][1][1:]):
+        if len(p) < 3 or any(t == "ptr" for _, t in p[2][1][1:]) or not c23_ir.prog_types(p) <= c23_ir.LEAN_TYPES:
             ctx.count("corpus.outside_subset")
             continue
         ctx.count("corpus.in_subset")
@@ -496,6 +516,11 @@ def run(ctx: core.Ctx) -> None:
     quick = ctx.tier == "quick"
     n_inputs = 10 if quick else 16
     run_batch(ctx, copy.deepcopy(REGRESSION) + corpus_programs(ctx), n_inputs)
+    # float-format family (all builtin float formats; text + execution oracles, no Lean model)
+    import time as _time
+    _t0 = _time.time()
+    c23_fmt.run(ctx, 240 if quick else 4000, n_inputs)
+    ctx.extra["fmt_family_wall_s"] = round(_time.time() - _t0, 2)
     batch = 60
     target = 1500 if quick else 100000
     done = 0
@@ -512,6 +537,8 @@ def run(ctx: core.Ctx) -> None:
 
 def replay(ctx: core.Ctx, body: dict) -> int:
     case = body["case"]
+    if case.get("family") in ("fmt", "fmt-table"):
+        return c23_fmt.replay(ctx, case)
     prog0, inputs = case["program"], case["inputs"]
     c, v, out = evaluate(ctx, prog0, inputs)
     print("program (as extracted from the xDSL IR):", sexp(c.prog) if c.prog else None)
